@@ -2,5 +2,7 @@
 EXTENDS Integers
 NegOne == -1
 DEV_none == {}
+DEV_set_ConfirmClearsUnreportedBroadcast_ErrorReplyIgnoresAddressing == {"ConfirmClearsUnreportedBroadcast", "ErrorReplyIgnoresAddressing"}
+DEV_set_ConfirmClearsUnreportedBroadcast == {"ConfirmClearsUnreportedBroadcast"}
 DEV_set_ErrorReplyIgnoresAddressing == {"ErrorReplyIgnoresAddressing"}
 ====
